@@ -124,8 +124,11 @@ pub fn roundtrip_check(
     };
     ctx.count("serialised");
     // write() must give the same bytes
-    let mut buf: Vec<u8> = Vec::new();
-    match guard(|| xot.write(root, &mut buf)) {
+    // (every other case through a writer that takes only a few bytes per call, as a pipe or socket may)
+    let mut cw = ChunkWriter::new(if ctx.cur_case % 2 == 0 { usize::MAX } else { 1 + (ctx.cur_case % 11) as usize });
+    let wr = guard(|| xot.write(root, &mut cw));
+    let buf = cw.buf;
+    match wr {
         Ok(Ok(())) => {
             if buf != text.as_bytes() {
                 ctx.violation(
@@ -149,13 +152,21 @@ pub fn roundtrip_check(
         if ctx.cur_case % 4 == 0 {
             entry_points.push("parse_fragment");
         }
+        if ctx.cur_case % 3 == 0 {
+            // the bytes write() produced, through the byte entry point (encoding detection must see UTF-8)
+            entry_points.push("parse_bytes");
+        }
     } else {
         entry_points.push("parse_fragment");
     }
     let expected = orig.norm_sets();
     for ep in entry_points {
         let mut x2 = Xot::new();
-        let r = guard(|| if ep == "parse" { x2.parse(&text) } else { x2.parse_fragment(&text) });
+        let r = guard(|| match ep {
+            "parse" => x2.parse(&text),
+            "parse_bytes" => x2.parse_bytes(&buf),
+            _ => x2.parse_fragment(&text),
+        });
         let doc2 = match r {
             Err(p) => {
                 ctx.violation(
@@ -324,6 +335,13 @@ impl Monitor for C01 {
         }
         ctx.count("in_domain");
         let mut doc = doc;
+        if stream != 0 && rng.chance(1, 15) && gen::is_wf_document(&doc) {
+            // a leading processing instruction that looks like an XML declaration to a careless encoding sniffer
+            let t = *rng.pick(&["xml-stylesheet", "xml-model", "xmlx"]);
+            let d = *rng.pick(&[" encoding=\"ISO-8859-1\" title=\"\u{e9}\u{44f}\"", "version=\"1.0\" encoding='koi8-r' \u{e9}", "encoding=\"UTF-16\" \u{20ac}"]);
+            doc.children.insert(0, ANode::pi(t, Some(d.trim_start())));
+            ctx.count("leading_pi_resembling_a_declaration");
+        }
         if rng.chance(1, 12) && inject_cr(&mut doc, rng) {
             ctx.count("carriage_return_in_comment_or_pi");
         }
